@@ -94,6 +94,10 @@ pub fn run_sequence(ctx: &mut Ctx, bytes: &[u8]) -> Result<bool, Failure> {
     let wd = WorkDir::new("c15");
     wd.write("gleam.toml", "name = \"app\"\nversion = \"1.0.0\"\n");
     wd.write("src/m.gleam", "pub fn g(x) { x }\n");
+    // a downloaded dependency the root's gleam.toml does not declare (so nothing has loaded it
+    // when one of its files is the first the client mentions), with a gleam.toml of its own
+    wd.write("build/packages/dep/gleam.toml", "name = \"dep\"\nversion = \"1.0.0\"\n");
+    wd.write("build/packages/dep/src/dm.gleam", "pub fn dep_fn(x) { x }\n");
     let ndocs = 1 + c.below(3);
     let mut uris = vec![];
     let mut states: Vec<DocState> = vec![];
@@ -116,6 +120,11 @@ pub fn run_sequence(ctx: &mut Ctx, bytes: &[u8]) -> Result<bool, Failure> {
         uri_of(&wd.path),
         uri_of(wd.path.parent().unwrap_or(&wd.path)),
         uri_of(&wd.path.join("src")),
+        // files of a package under build/packages: one that exists, one that has just appeared
+        uri_of(&wd.path.join("build/packages/dep/src/dm.gleam")),
+        uri_of(&wd.path.join("build/packages/dep/src/fresh.gleam")),
+        uri_of(&wd.path.join("build/packages/dep/gleam.toml")),
+        uri_of(&wd.path.join("build/packages/nopkg/src/lost.gleam")),
     ];
     let mut lsp = Lsp::spawn(&wd.path, &[]).map_err(|e| Failure::new(format!("cannot start glas: {e}"), case.clone()).sig("kind", "harness"))?;
     if !lsp.initialize(&wd.path) {
